@@ -126,6 +126,11 @@ def oracle(ck, tier, deep):
             ck.violation(dict(sig, clause="exception"), rep, f"{type(e).__name__}: {e}")
             continue
         cn = res["same"][1].cos()
+        if not np.all(np.isfinite(cn)):
+            # (truncated-SVD regularisation keeps more singular values than there are radii with data when most of the disk is
+            #  masked or beyond the frame: 1/0 in the library, everything NaN — a degenerate request, nothing to compare)
+            ck.notes.append(f"non-finite distributions for {show(case)}: skipped")
+            continue
         rmax = cn.shape[1] - 1
         scale = max(1.0, np.abs(cn).max())
         for o in OUTS + [None]:
